@@ -722,6 +722,13 @@ func (e *Engine) initIntrinsics() {
 		panic(e.unsupported("sha256 of symbolic input"))
 	}
 
+	// ---- libp2p identity helpers (text only used for logging) -------------------------------------
+	ident := func(e *Engine, a []Value, pos token.Pos, fn *ssa.Function) Value { return a[0] }
+	I["(github.com/libp2p/go-libp2p/core/peer.ID).String"] = ident
+	I["(github.com/libp2p/go-libp2p/core/peer.ID).ShortString"] = ident
+	I["(github.com/libp2p/go-libp2p/core/peer.ID).Loggable"] = noop
+	I["github.com/libp2p/go-libp2p/p2p/host/peerstore/pstoremem.NewAddrBook"] = noop
+
 	// ---- sort ----------------------------------------------------------------------------------
 	I["sort.Slice"] = func(e *Engine, a []Value, pos token.Pos, fn *ssa.Function) Value {
 		return e.sortSlice(a[0].(*IfaceV), a[1].(*FuncV), pos)
